@@ -148,8 +148,13 @@ type runner struct {
 	itersWant int
 	itersSeen int
 	fetch     *fetchCall
-	seen      map[string]int // manager/service events seen in the current step
-	gaveUp    map[int]bool   // requests reported missing
+	seen      map[string]int    // manager/service events seen in the current step
+	gaveUp    map[int]bool      // requests reported missing
+	main      *Rec              // the record of the step being executed
+	over      *Rec              // a second manager iteration inside one step (only under drift): recorded on its own
+	first     *veriftrace.Event // the state event that ended the step's own iteration
+	firstMgr  string
+	extra     []*Rec // surplus-iteration records of the last step, to be written after its own record
 	rec       *Rec
 }
 
@@ -229,6 +234,29 @@ func (r *runner) absorb(ev veriftrace.Event) {
 			r.exited = true
 		}
 		r.seen["mgr:"+ev.Event]++
+		if ev.Event == "exit" || ev.Event == "stop-timer" {
+			break
+		}
+		// One step of a script is one iteration of the manager's loop. A second iteration inside the same step (it
+		// happens only when the code departs from the specification, e.g. a stop request the step expected to be
+		// swallowed is acted upon) gets a record of its own, so that each record describes one iteration.
+		if r.first == nil {
+			r.first = &evc
+			r.firstMgr = "run"
+			break
+		}
+		if r.over == nil && r.main != nil {
+			name := "Unexpected"
+			if ev.Event == "stop" {
+				name = "DeploymentClosed"
+				if r.seen["svc:shutdown"] > 0 {
+					name = "Shutdown"
+				}
+			}
+			r.over = &Rec{E: "step", Script: r.script, I: r.main.I, Name: name, Sends: [][]interface{}{}, Rets: [][]interface{}{},
+				Ann: [][2]int{}, AnnHook: [][2]int{}, Missing: []int{}, Errs: []string{}}
+			r.rec = r.over // replies and announcements from here on belong to the second iteration
+		}
 	}
 }
 
@@ -284,14 +312,16 @@ func (r *runner) mgrState() string {
 }
 
 // state projects the abstract state from the last hook observations.
-func (r *runner) state() StateRec {
+func (r *runner) state() StateRec { return r.stateAt(r.mgrLast, r.mgrState()) }
+
+// stateAt projects the abstract state from one state event of the manager.
+func (r *runner) stateAt(ev *veriftrace.Event, mgr string) StateRec {
 	svc := "run"
 	if r.svcDown {
 		svc = "down"
 	}
 	st := emptyState(svc)
-	st.Mgr = r.mgrState()
-	ev := r.mgrLast
+	st.Mgr = mgr
 	if ev == nil {
 		return st
 	}
@@ -356,7 +386,7 @@ func (r *runner) awaitFetch() bool {
 func (r *runner) do(i int, s Step) (*Rec, bool) {
 	rec := &Rec{E: "step", Script: r.script, I: i, Name: s.Name, Arg: s.Arg, C: s.C, K: s.K, Sends: [][]interface{}{}, Rets: [][]interface{}{},
 		Ann: [][2]int{}, AnnHook: [][2]int{}, Missing: []int{}, Errs: []string{}}
-	r.rec = rec
+	r.rec, r.main, r.over, r.first = rec, rec, nil, nil
 	r.seen = map[string]int{}
 	r.curReq = 0
 	e := r.e
@@ -445,12 +475,30 @@ func (r *runner) do(i int, s Step) (*Rec, bool) {
 			c.release <- fetchResult{version: s.Arg}
 		}
 		ht := newRunTimer(r.stepTO)
-		select {
-		case <-held:
-			ht.Stop()
-		case <-ht.C:
+		reached := false
+	hold:
+		for {
+			select {
+			case <-held:
+				reached = true
+				break hold
+			case ev := <-e.hooks:
+				r.absorb(ev)
+				if r.seen["mgr:"+hook] > 0 {
+					break hold // the iteration ended without a K-th hostname check: nothing to interrupt
+				}
+			case <-ht.C:
+				e.hosts.disarm()
+				return fail("hostname check to hold")
+			}
+		}
+		ht.Stop()
+		if !reached {
 			e.hosts.disarm()
-			return fail("hostname check to hold")
+			if !r.await(r.itersDone) {
+				return fail("service iteration")
+			}
+			break
 		}
 		if s.C == 1 {
 			_ = r.publish(dtypes.EventDeploymentClosed{ID: e.did})
@@ -586,7 +634,11 @@ wait:
 
 	// replies: every reply the manager wrote must come back as the return of that Submit call
 	want := map[int]bool{}
-	for _, sd := range rec.Sends {
+	allSends := rec.Sends
+	if r.over != nil {
+		allSends = append(append([][]interface{}{}, rec.Sends...), r.over.Sends...)
+	}
+	for _, sd := range allSends {
 		q := sd[0].(int)
 		if r.open[q] {
 			want[q] = true
@@ -639,6 +691,31 @@ wait:
 	}
 	if e.overflow {
 		return fail("hook buffer overflow")
+	}
+	if r.over != nil {
+		// two iterations in one step: the step's own record describes the first, the surplus one follows
+		over := r.over
+		over.St = rec.St
+		rec.St = r.stateAt(r.first, "run")
+		if n := len(rec.AnnHook); n <= len(rec.Ann) {
+			over.Ann = append(over.Ann, rec.Ann[n:]...)
+			rec.Ann = rec.Ann[:n]
+		}
+		mine := map[int]bool{}
+		for _, sd := range over.Sends {
+			mine[sd[0].(int)] = true
+		}
+		keep := rec.Rets[:0:0]
+		for _, rt := range rec.Rets {
+			if mine[rt[0].(int)] {
+				over.Rets = append(over.Rets, rt)
+			} else {
+				keep = append(keep, rt)
+			}
+		}
+		rec.Rets = keep
+		over.Missing, rec.Missing = rec.Missing, []int{}
+		r.extra = append(r.extra, over)
 	}
 	return rec, true
 }
